@@ -193,6 +193,15 @@ def run(ctx):
         else:
             ok = any(t[3] is True and t[0] in ("in", "==", "is") and spec in (t[1].split(".")[0], t[2].split(".")[0], t[1], t[2]) for t in simple)
             why = "the returned actor is tied to the address by a positive membership / equality test"
+            # or it was looked up under the address itself:  actor = registry.get(spec); if actor is not None: return actor
+            if not ok and isinstance(r_.value, ast.Name):
+                for a_ in assignments_to(rt, r_.value.id):
+                    v_ = getattr(a_, "value", None)
+                    keyed = (isinstance(v_, ast.Call) and isinstance(v_.func, ast.Attribute) and v_.func.attr == "get" and v_.args and norm(v_.args[0]) == spec) or \
+                        (isinstance(v_, ast.Subscript) and norm(v_.slice) == spec)
+                    if keyed and any(t in (("is", "None", r_.value.id, False), ("is", r_.value.id, "None", False), ("truthy", r_.value.id, "", True)) for t in simple):
+                        ok = True
+                        why = "the returned actor was looked up under the address and is present"
         ok = ok and not consts
         from sa.util import enclosing_loops as _el
         if ok and _el(rt, r_) and isinstance(r_.value, ast.Call) and isinstance(r_.value.func, ast.Attribute) and r_.value.func.attr == "get":
